@@ -267,7 +267,10 @@ def _check_local(case):
             viols.append(V("richardson_not_higher", "{}: {} extrapolation levels must raise the order above {} but the local error slope is {:.2f} (order {:.2f}); pairwise slopes {}".format(
                 name, k, pb, slope, attained, [round(x[2], 2) for x in sl]), "k3+:{}".format(M.family(base)), method=name, base=base, levels=k, observed_order=attained))
     else:
-        if slope < p_expect + 1 - _slack(p_expect):
+        # a usable window that only reaches down to h x rate in (0.35, 0.7] is asymptotic enough to tell order p from p - 1
+        # but its best slope still falls a few tenths short of p + 1 (seen: RadauIA5, 5.29 on 0.5..1.0, 5.8 below the floor)
+        slack = _slack(p_expect) if min(x[0] for x in sl) * rate <= 0.35 else max(_slack(p_expect), 0.85)
+        if slope < p_expect + 1 - slack:
             viols.append(V("order_declared", "{} declares order {} but its local error on a smooth problem has slope {:.2f} (order {:.2f}); usable points {}, pair slopes {}, dtype {}".format(
                 name, p_expect, slope, attained, npts, [round(x[2], 2) for x in sl], dtname), name, method=name, observed_order=attained, declared=p_expect))
     return viols, dict(nontrivial=nontrivial, labels=labels, metrics=metrics)
@@ -314,14 +317,17 @@ def _check_global(case):
     floor = (3e-11 if implicit else 30 * _coef_precision(name)) * scale * Ns[-1]
     viols = []
     ratios = []
-    for e1, e2 in zip(errs, errs[1:]):
+    short = []
+    for (e1, e2), N1 in zip(zip(errs, errs[1:]), Ns):
         if e2 > floor and e1 < 3e-2 * f.scale():
             ratios.append(e1 / e2)
+            # the coarsest pair (h x rate = 2/N = 0.5 -> 0.25) is judged with the wider slack of the local part
+            short.append(np.log2(e1 / e2) < p - (0.7 if 2.0 / N1 <= 0.35 else 0.85))
     if not ratios:
         return [], dict(nontrivial=False, labels=labels + ["inconclusive:below_floor"])
     best = max(ratios)
     observed = float(np.log2(best))
-    if best < 2.0 ** (p - 0.7):
+    if all(short):
         viols.append(V("order_global", "{} declares order {} but halving the step divides the global error only by {} (order {:.2f}); errors {}".format(
             name, p, [round(r, 2) for r in ratios], observed, ["{:.2e}".format(e) for e in errs]), name, method=name, observed_order=observed, declared=p))
     return viols, dict(nontrivial=bool(f.nonlinear and f.n >= 2), labels=labels, metrics={"order_shortfall:global": p - observed})
